@@ -110,10 +110,16 @@ def check_key_table_filter(ctx, rule):
                     detail += "; filter source %s" % sorted(src)
                 p = op_place(ft["args"][1])
                 d = b.single_def(p["l"]) if p else None
-                if not (d and d.kind == "assign" and d.node["rv"].get("agg") == "closure"):
+                cfn = op_const(ft["args"][1])
+                ITEM = 2          # closure: _1 is the environment, _2 the element
+                if d and d.kind == "assign" and d.node["rv"].get("agg") == "closure":
+                    cb = body_of(fx, d.node["rv"]["closure_key"])
+                elif cfn is not None and cfn.get("fn_key") in fx.fns:
+                    cb = body_of(fx, cfn["fn_key"])     # a named predicate function
+                    ITEM = 1
+                else:
                     okf = False
                     continue
-                cb = body_of(fx, d.node["rv"]["closure_key"])
                 # closure returns true only on an edge `pair.0 == PublicKey::key_id(pair.1)`
                 trues = [(i, st) for i, blk in enumerate(cb.blocks) for st in blk["stmts"]
                          if st["k"] == "assign" and st["dst"]["l"] == 0 and not st["dst"]["p"] and i in cb.reach]
@@ -130,9 +136,9 @@ def check_key_table_filter(ctx, rule):
                         if cm and cm[0] == "Eq":
                             for (u, v) in ((cm[1], cm[2]), (cm[2], cm[1])):
                                 ul, vl = cb.trace(u), cb.trace(v)
-                                if ul and all(x.kind == "param" and x.data == 2 and x.path[-1:] == (F0,) for x in ul) and \
+                                if ul and all(x.kind == "param" and x.data == ITEM and x.path[-1:] == (F0,) for x in ul) and \
                                         vl and all(x.kind == "call" and callee_name(x.data[1]) == "crypto::PublicKey::key_id" and
-                                                   all(y.kind == "param" and y.data == 2 and y.path[-1:] == (F1,) for y in cb.trace(x.data[1]["args"][0])) for x in vl):
+                                                   all(y.kind == "param" and y.data == ITEM and y.path[-1:] == (F1,) for y in cb.trace(x.data[1]["args"][0])) for x in vl):
                                     eqok = True
                     if not eqok:
                         # the closure may return the comparison itself: `|(id, key)| id == key.key_id()`
@@ -141,9 +147,9 @@ def check_key_table_filter(ctx, rule):
                             if dc and callee_name(dc[1]) == "std::cmp::PartialEq::eq":
                                 ul, vl = cb.trace(dc[1]["args"][0]), cb.trace(dc[1]["args"][1])
                                 for (ul_, vl_) in ((ul, vl), (vl, ul)):
-                                    if ul_ and all(x.kind == "param" and x.data == 2 and x.path[-1:] == (F0,) for x in ul_) and \
+                                    if ul_ and all(x.kind == "param" and x.data == ITEM and x.path[-1:] == (F0,) for x in ul_) and \
                                             vl_ and all(x.kind == "call" and callee_name(x.data[1]) == "crypto::PublicKey::key_id" and
-                                                        all(y.kind == "param" and y.data == 2 and y.path[-1:] == (F1,) for y in cb.trace(x.data[1]["args"][0])) for x in vl_):
+                                                        all(y.kind == "param" and y.data == ITEM and y.path[-1:] == (F1,) for y in cb.trace(x.data[1]["args"][0])) for x in vl_):
                                         eqok = True
                     if not eqok:
                         good = False
@@ -197,12 +203,49 @@ def _param_calls(fx, root_fn, names):
     return out
 
 
+def _calls_for_key_type(fx, root_key, kt, names, depth=0, seen=None):
+    """Calls to `names` that can execute when the KeyType value tested along the way is `kt`: in each body (the function, the
+    closures it creates and the local functions it calls, recursively) the edges on which a KeyType is known to be another
+    variant are removed, and only what stays reachable counts.  -> [(name, body, bb, term)]"""
+    if seen is None:
+        seen = set()
+    if root_key in seen or depth > 6 or root_key not in fx.fns:
+        return []
+    seen = seen | {root_key}
+    b = body_of(fx, root_key)
+    removed = set()
+    for (e, tb, fa) in b.all_edge_facts():
+        if fa[0] == "variant" and (fa[3] or "").endswith("KeyType") and fa[2] != kt:
+            removed.add(e)
+        if fa[0] == "notvariant" and (fa[3] or "").endswith("KeyType") and kt in fa[2]:
+            removed.add(e)
+    reach = b.reach_between(0, removed_edges=removed) if removed else set(b.reach)
+    out = []
+    for i in sorted(reach):
+        blk = b.blocks[i]
+        for st in blk["stmts"]:
+            if st["k"] == "assign" and st["rv"].get("agg") == "closure":
+                out += _calls_for_key_type(fx, st["rv"]["closure_key"], kt, names, depth + 1, seen)
+        t = blk["term"]
+        if t and t["k"] == "call":
+            n = callee_name(t)
+            if n in names:
+                out.append((n, b, i, t))
+            ck = t.get("resolved_key") or t.get("callee_key")
+            if ck in fx.fns and fx.fns[ck]["kind"] in ("Fn", "AssocFn") and not fx.fns[ck].get("impl_trait") \
+                    and fx.fns[ck]["path"].startswith("crypto::") and "KeyType::" not in fx.fns[ck]["path"]:
+                out += _calls_for_key_type(fx, ck, kt, names, depth + 1, seen)
+    return out
+
+
 def check_spki_tables(ctx, rule, standard):
+    """The AlgorithmIdentifier parameters the exporter writes / the importer accepts, per key type, against the standard.
+    Anchors are the public as_spki / from_spki; private helpers are followed, not named."""
     fx = ctx.fx
-    wf = fx.fn_opt("crypto::write_spki")
-    rf = fx.fn_opt("crypto::PublicKey::from_spki_with_keyid_hash_algorithms")
+    wf = fx.fn_opt("crypto::PublicKey::as_spki")
+    rf = fx.fn_opt("crypto::PublicKey::from_spki")
     if not wf or not rf:
-        ctx.bad(rule, "SPKI functions", "write_spki / from_spki_with_keyid_hash_algorithms not found (failing closed)")
+        ctx.bad(rule, "SPKI functions", "PublicKey::as_spki / PublicKey::from_spki not found (failing closed)")
         return
     def tag_of(b, t):
         # second argument of element / expect_tag_and_get_value is the Tag
@@ -213,47 +256,46 @@ def check_spki_tables(ctx, rule, standard):
                 if l.kind == "const":
                     return str(l.data.get("int", l.data.get("repr")))
         return "?"
-    # ---- writer
-    wcalls = _param_calls(fx, wf, {"derp::Der::null", "derp::Der::element"})
-    writer = {}
-    first_oid_seen = False
-    for (n, arm, guards, b, i, t) in wcalls:
-        if n == "derp::Der::element":
-            if arm is None:
-                continue         # the algorithm OID itself, written for every key type
-            writer.setdefault(arm, set()).add("OID" if tag_of(b, t) == "Oid" else "?" + tag_of(b, t))
-        else:
-            writer.setdefault(arm, set()).add("NULL")
-    def shape_for(table, kt, all_types):
-        if kt in table:
-            return table[kt]
-        # catch-all arm(s)
-        for k, v in table.items():
-            if k is None:
-                return v
-            if isinstance(k, str) and k.startswith("not:") and kt not in k[4:].split(","):
-                return v
-        return {"ABSENT"}
     types = ["Rsa", "Ed25519", "Ecdsa"]
-    explicit = {k for k in writer if k in types}
+    wtable, rtable = {}, {}
     for kt in types:
-        w = shape_for(writer, kt, types)
-        ctx.inst(rule, "exporter writes the standard parameters for %s" % kt, w == {standard[kt]},
-                 "written: %s; standard: %s (writer table %s)" % (sorted(w), standard[kt], {str(k): sorted(v) for k, v in writer.items()}), wf["at"])
-    # ---- reader
-    rcalls = _param_calls(fx, rf, {"derp::read_null", "derp::expect_tag_and_get_value"})
-    reader = {}
-    for (n, arm, guards, b, i, t) in rcalls:
-        if n == "derp::expect_tag_and_get_value":
-            if arm is None:
-                continue         # the algorithm OID
-            reader.setdefault(arm, set()).add("OID")
-        else:
-            optional = any(g == ("at_end", False) for g in guards)
-            reader.setdefault(arm, set()).add("NULL")
-            if optional:
-                reader[arm].add("ABSENT")
+        # ---- writer: everything after the algorithm OID (the first OID element) is the parameters
+        calls = _calls_for_key_type(fx, wf["key"], kt, {"derp::Der::null", "derp::Der::element"})
+        oids = [c for c in calls if c[0] == "derp::Der::element" and tag_of(c[1], c[3]) == "Oid"]
+        other = [c for c in calls if c[0] == "derp::Der::element" and tag_of(c[1], c[3]) != "Oid"]
+        nulls = [c for c in calls if c[0] == "derp::Der::null"]
+        w = set()
+        if len(oids) >= 2:
+            w.add("OID")
+        if nulls:
+            w.add("NULL")
+        for c in other:
+            w.add("?" + tag_of(c[1], c[3]))
+        if not w:
+            w.add("ABSENT")
+        if not oids:
+            w.add("no algorithm OID")
+        wtable[kt] = w
+        # ---- reader
+        calls = _calls_for_key_type(fx, rf["key"], kt, {"derp::read_null", "derp::expect_tag_and_get_value"})
+        oids = [c for c in calls if c[0] == "derp::expect_tag_and_get_value" and tag_of(c[1], c[3]) == "Oid"]
+        nulls = [c for c in calls if c[0] == "derp::read_null"]
+        r = set()
+        if len(oids) >= 2:
+            r.add("OID")
+        for (n, b, i, t) in nulls:
+            r.add("NULL")
+            for (e, fa) in b.facts_dominating(i):
+                pr = as_pred(fa)
+                if pr and pr[0].split("::")[-1] == "at_end" and pr[2] is False:
+                    r.add("ABSENT")       # read only when something is left: absent parameters are accepted too
+        if not r:
+            r.add("ABSENT")
+        rtable[kt] = r
     for kt in types:
-        r = shape_for(reader, kt, types)
-        ctx.inst(rule, "importer accepts the standard parameters for %s" % kt, standard[kt] in r,
-                 "accepted: %s; standard: %s (reader table %s)" % (sorted(r), standard[kt], {str(k): sorted(v) for k, v in reader.items()}), rf["at"])
+        ctx.inst(rule, "exporter writes the standard parameters for %s" % kt, wtable[kt] == {standard[kt]},
+                 "written: %s; standard: %s (writer table %s)" % (sorted(wtable[kt]), standard[kt], {k: sorted(v) for k, v in wtable.items()}), wf["at"])
+    for kt in types:
+        ctx.inst(rule, "importer accepts the standard parameters for %s" % kt, standard[kt] in rtable[kt],
+                 "accepted: %s; standard: %s (reader table %s)" % (sorted(rtable[kt]), standard[kt], {k: sorted(v) for k, v in rtable.items()}), rf["at"])
+    return wtable, rtable
